@@ -19,3 +19,4 @@ import MicroHttp.Props.Tables
 #print axioms MicroHttp.Tables.response_build
 #print axioms MicroHttp.Tables.no_shared_state
 #print axioms MicroHttp.Tables.no_interior_mutability
+#print axioms MicroHttp.Tables.response_fields
